@@ -12,8 +12,17 @@ import ast
 
 
 def _str_list(node, what):
-    if not isinstance(node, ast.List):
-        die(f"{what}: expected a list literal, got {ast.dump(node)[:80]}")
+    """A collection of string constants: a list / tuple / set literal, possibly wrapped in list() / tuple() / set() /
+    frozenset().  Returns (names in source order, whether the source form is ordered)."""
+    ordered = True
+    if isinstance(node, ast.Call) and isinstance(node.func, ast.Name) and node.func.id in ("list", "tuple", "set", "frozenset") \
+            and len(node.args) == 1 and not node.keywords:
+        ordered = node.func.id in ("list", "tuple")
+        node = node.args[0]
+    if isinstance(node, ast.Set):
+        ordered = False
+    if not isinstance(node, (ast.List, ast.Tuple, ast.Set)):
+        die(f"{what}: expected a literal collection of strings, got {ast.dump(node)[:80]}")
     out = []
     for e in node.elts:
         if not (isinstance(e, ast.Constant) and isinstance(e.value, str)):
@@ -21,7 +30,7 @@ def _str_list(node, what):
         out.append(e.value)
     if len(set(out)) != len(out):
         die(f"{what}: duplicate entries")
-    return out
+    return out, ordered
 
 
 def _toplevel_assign(tree, name):
@@ -37,18 +46,20 @@ def _banned_reserved(rel):
     b = _toplevel_assign(tree, "_banned")
     if b is None:
         die(f"{rel}: _banned not found")
-    banned = _str_list(b, rel + ":_banned")
+    banned, b_ord = _str_list(b, rel + ":_banned")
     r = _toplevel_assign(tree, "_reserved")
+    r_ord = b_ord
     if r is None:
         reserved = list(banned)
     else:
-        if not (isinstance(r, ast.BinOp) and isinstance(r.op, ast.Add) and isinstance(r.left, ast.Name)
+        # `_banned + [...]` (sequences) or `_banned | {...}` (sets)
+        if not (isinstance(r, ast.BinOp) and isinstance(r.op, (ast.Add, ast.BitOr)) and isinstance(r.left, ast.Name)
                 and r.left.id == "_banned"):
-            die(f"{rel}: _reserved is not `_banned + [...]`")
-        reserved = banned + _str_list(r.right, rel + ":_reserved")
-        if len(set(reserved)) != len(reserved):
-            die(f"{rel}: duplicate entries in _reserved")
-    return tree, banned, reserved
+            die(f"{rel}: _reserved is not `_banned + [...]` / `_banned | {{...}}`")
+        more, m_ord = _str_list(r.right, rel + ":_reserved")
+        r_ord = b_ord and m_ord and isinstance(r.op, ast.Add)
+        reserved = banned + [x for x in more if x not in banned]
+    return tree, banned, reserved, b_ord, r_ord
 
 
 def _printable(names, what):
@@ -58,21 +69,51 @@ def _printable(names, what):
     return names
 
 
-mtree, m_banned, m_reserved = _banned_reserved("hdl21/module.py")
-btree, b_banned, b_reserved = _banned_reserved("hdl21/bundle.py")
-pn = None
-for n in ast.walk(find_func(btree, "bundle")):
-    if isinstance(n, ast.Assign) and isinstance(n.targets[0], ast.Name) and n.targets[0].id == "protected_names":
-        pn = _str_list(n.value, "bundle.py:bundle:protected_names")
-if pn is None:
-    die("bundle.py:bundle: protected_names not found")
+mtree, m_banned, m_reserved, m_bo, m_ro = _banned_reserved("hdl21/module.py")
+btree, b_banned, b_reserved, b_bo, b_ro = _banned_reserved("hdl21/bundle.py")
 
 import sys, hdl21
 _hm, _hb = sys.modules["hdl21.module"], sys.modules["hdl21.bundle"]
-if list(_hm._banned) != m_banned or list(_hb._banned) != b_banned:
-    die("_banned: ast reading differs from the live lists")
-if list(getattr(_hm, "_reserved", _hm._banned)) != m_reserved or list(getattr(_hb, "_reserved", _hb._banned)) != b_reserved:
-    die("_reserved: ast reading differs from the live lists")
+
+
+def _same(live, read, ordered, what):
+    if (list(live) != read) if ordered else (set(live) != set(read) or len(list(live)) != len(read)):
+        die(f"{what}: ast reading differs from the live object")
+
+
+_same(_hm._banned, m_banned, m_bo, "module._banned")
+_same(_hb._banned, b_banned, b_bo, "bundle._banned")
+_same(getattr(_hm, "_reserved", _hm._banned), m_reserved, m_ro, "module._reserved")
+_same(getattr(_hb, "_reserved", _hb._banned), b_reserved, b_ro, "bundle._reserved")
+# un-ordered source forms are emitted sorted (the theorems use membership only)
+if not m_bo: m_banned = sorted(m_banned)
+if not m_ro: m_reserved = sorted(m_reserved)
+if not b_bo: b_banned = sorted(b_banned)
+if not b_ro: b_reserved = sorted(b_reserved)
+
+# the names the @bundle decorator refuses in a class body: the literal `protected_names` of bundle.py:bundle when it is
+# there, cross-checked against the decorator's behaviour; otherwise read off the behaviour of the live decorator
+# (import-and-dump: data only - which of the candidate names a class body may not bind)
+pn = None
+for n in ast.walk(find_func(btree, "bundle")):
+    if isinstance(n, ast.Assign) and isinstance(n.targets[0], ast.Name) and n.targets[0].id == "protected_names":
+        pn, _ = _str_list(n.value, "bundle.py:bundle:protected_names")
+
+
+def _refused_by_decorator(name):
+    try:
+        hdl21.bundle(type("ProbeBundle", (), {name: hdl21.Signal()}))
+        return False
+    except Exception:
+        return True
+
+
+_cands = list(dict.fromkeys(list(b_reserved) + sorted(n for n in dir(hdl21.Bundle(name="T")) if not n.startswith("_"))))
+_probed = [n for n in _cands if _refused_by_decorator(n)]
+if pn is None:
+    pn = _probed
+elif set(pn) != set(_probed) and not set(pn) <= set(_probed):
+    die(f"bundle.py:bundle: protected_names {pn} are not all refused by the live decorator (refused: {_probed})")
 m_public = sorted(n for n in dir(hdl21.Module(name="T")) if not n.startswith("_"))
 b_public = sorted(n for n in dir(hdl21.Bundle(name="T")) if not n.startswith("_"))
 if not m_public or not b_public:
